@@ -16,6 +16,9 @@
 //     public dispatch_block_perform (stamps only: its record lives on the library's stack);
 //   3 lost-cancel: a timed wait on a block that cannot complete yet times out while a cancel lands inside it;
 //     then testcancel, then the block is submitted (must not run its body, must complete for waiter and notifier).
+//   4 slot: the dbpd_queue slot is already occupied when the same object is submitted again (async and sync: the
+//     cmpxchg fails and the references are given back) and is emptied by another invocation before a held
+//     dispatch_sync invocation finishes (its xchg finds NULL).
 // output: "L <offsets>" layout line, one "R ..." line per round, then the recorder dump.  Recorded objects:
 //   obj = 2*round     the private data record (offset = byte offset inside dispatch_block_private_data_s)
 //   obj = 2*round + 1 the dg_state word (8 bytes: dg_bits at +0, dg_gen at +4) of the private group
@@ -79,7 +82,7 @@ typedef struct { round_t *r; int idx, nops; sop_t ops[MAXOPS]; uint64_t rng; pth
 struct round_s {
 	int k, kind, subm, hold, nhelpers; unsigned long flags;
 	dispatch_block_t db; dispatch_block_private_data_t dbpd; dispatch_queue_t q, nq; dispatch_group_t ug;
-	sem_t gate; _Atomic int phase, body_runs, in_body, pend[3], go_submit, invocations, cancels, nnotif, waited_ok;
+	sem_t gate; _Atomic int phase, body_runs, in_body, entered, pend[3], go_submit, invocations, cancels, nnotif, waited_ok;
 	_Atomic int notif_runs[MAXNOT]; _Atomic int wait_zero, wait_nonzero, wait_early, tc_zero_after_cancel;
 	_Atomic uint64_t cancel_ret_seq;    // 0 = no cancel has returned yet (stamp + 1 otherwise)
 	pthread_mutex_t wmu; helper_t h[MAXH]; uint64_t rng;
@@ -90,7 +93,7 @@ static uint64_t now_stamp(void) { return atomic_load(&dv_seq); }
 static void body(round_t *r) {
 	dv_user(DVU_CALLOUT_BEGIN, 2 * r->k, 0, 0);
 	atomic_fetch_add(&r->body_runs, 1); atomic_fetch_add(&r->in_body, 1);
-	if (r->hold) { while (sem_wait(&r->gate) != 0 && errno == EINTR) {} sem_post(&r->gate); }
+	if (r->hold && atomic_fetch_add(&r->entered, 1) == 0) { while (sem_wait(&r->gate) != 0 && errno == EINTR) {} sem_post(&r->gate); }
 	else { uint64_t x = (uint64_t)r->k * 2654435761u; if (x % 3 == 0) usleep((useconds_t)(x % 200)); else if (x % 3 == 1) sched_yield(); }
 	atomic_fetch_sub(&r->in_body, 1);
 	dv_user(DVU_CALLOUT_END, 2 * r->k, 0, 0);
@@ -406,6 +409,28 @@ static void round_lostcancel(round_t *r) {
 	print_round(r, 1, stuck);
 }
 
+// kind 4: occupied / emptied dbpd_queue slot (three invocations, no wait / notify)
+static void *slot_sync(void *a) { helper_t *h = (helper_t *)a; do_sync(h->r); return NULL; }
+static void round_slot(round_t *r) {
+	r->subm = -4; r->hold = 1;
+	dispatch_queue_t q1 = dispatch_queue_create("c19.slot1", NULL); r->q = dispatch_queue_create("c19.slot2", NULL);
+	r->nq = dispatch_get_global_queue(0, 0); r->ug = dispatch_group_create();
+	make_block(r);
+	dispatch_suspend(q1);
+	do_async(r, q1, 0);                    // slot = q1
+	do_async(r, q1, (int)(xr(&r->rng) % 3));  // cmpxchg fails: references given back
+	r->h[0].r = r; r->nhelpers = 1;
+	pthread_create(&r->h[0].th, NULL, slot_sync, &r->h[0]);     // dispatch_sync on another queue: cmpxchg fails; body held
+	int stuck = wait_until(&r->in_body, 1, 3000) ? 0 : 2;
+	dv_user(DVU_MARK, 2 * r->k, 1, 0); dispatch_resume(q1);      // both async invocations run; the first empties the slot
+	if (!wait_performed(r, 2, 3000)) stuck |= 4;
+	sem_post(&r->gate);                                            // the sync invocation finishes: xchg finds NULL
+	pthread_join(r->h[0].th, NULL);
+	if (!wait_performed(r, 3, 3000)) stuck |= 4;
+	usleep(200);
+	print_round(r, 1, stuck);
+}
+
 static void on_sig(int s) { (void)s; }
 int main(int argc, char **argv) {
 	uint64_t seed = argc > 1 ? strtoull(argv[1], 0, 10) : 1; int nrounds = argc > 2 ? atoi(argv[2]) : 40;
@@ -422,9 +447,9 @@ int main(int argc, char **argv) {
 		round_t *r = calloc(1, sizeof *r);
 		r->k = k; r->rng = xr(&g) | 1; sem_init(&r->gate, 0, 0); pthread_mutex_init(&r->wmu, NULL);
 		unsigned c = (unsigned)(xr(&g) % 20);
-		r->kind = c < 11 ? 0 : c < 14 ? 1 : c < 16 ? 2 : 3;
+		r->kind = c < 10 ? 0 : c < 13 ? 1 : c < 15 ? 2 : c < 19 ? 3 : 4;
 		if (r->kind == 0) round_single(r); else if (r->kind == 1) round_multi(r); else if (r->kind == 2) round_perform(r);
-		else round_lostcancel(r);
+		else if (r->kind == 3) round_lostcancel(r); else round_slot(r);
 		if (getenv("C19_TIMING")) { struct timespec ts; clock_gettime(CLOCK_MONOTONIC, &ts); fprintf(stderr, "T %d kind=%d subm=%d hold=%d %ld.%03ld\n", k, r->kind, r->subm, r->hold, (long)ts.tv_sec, ts.tv_nsec / 1000000); }
 		// rounds are leaked on purpose: late worker-thread accesses stay valid and addresses are never reused
 	}
